@@ -151,10 +151,13 @@ class SimProcess:
 
     # -- hash-seed seam ----------------------------------------------------
     def _install_set_order(self):
-        key = self.knobs.get("set_key")
+        if self.knobs.get("real_set_order"):
+            return          # real child interpreter: the real hash seed decides
+        key = self.knobs.get("set_key") or "default-order"
+        explicit = self.knobs.get("set_order")
         sir = self.sir
         cls = getattr(sir, "SensitiveWordAnonymizer", None) if sir else None
-        if cls is None or key is None:
+        if cls is None:
             return
         orig = cls.__dict__.get("_generate_sensitive_word_regex")
         if orig is None:
@@ -169,6 +172,9 @@ class SimProcess:
                 sensitive_words = sorted(
                     sensitive_words,
                     key=lambda w: (hashlib.md5((str(key) + "\0" + str(w)).encode()).hexdigest(), str(w)))
+                if explicit:
+                    rank = {str(w).lower(): i for i, w in enumerate(explicit)}
+                    sensitive_words.sort(key=lambda w: rank.get(str(w).lower(), len(rank)))
             return func(c, sensitive_words, *a, **k)
 
         if isinstance(orig, classmethod):
